@@ -84,6 +84,30 @@ type vpC11LRun struct {
 	pledging int   // joiner currently pledging or -1
 	accepted int   // accepted nodes now
 	marks    map[string]bool
+	skew     bool   // the node's clock runs skewBy behind the snapshot it is handed (proposer/verifier clock skew)
+	skewBy   uint64
+	// the last question put to each probed chain object before the next
+	// operation: ConsensusKeys(1, q) for a q far after it. It is repeated as the
+	// FIRST question after the operation, so that an answer kept from before the
+	// reload would be served again.
+	sentinel map[crypto.Hash]uint64
+}
+
+func vpC11LKeysString(ch *Chain, round, q uint64) string {
+	ids, keys := ch.ConsensusKeys(round, q)
+	var sb strings.Builder
+	for i := range ids {
+		sb.WriteString(ids[i].String()[:12])
+		sb.WriteByte(':')
+		sb.WriteString(keys[i].String()[:12])
+		sb.WriteByte(';')
+	}
+	return sb.String()
+}
+
+// vpC11LSetClock moves the kernel's (mockable) clock to an absolute instant.
+func vpC11LSetClock(target uint64) {
+	clock.MockDiff(time.Duration(int64(target) - clock.Now().UnixNano()))
 }
 
 func (r *vpC11LRun) hourOf(ts uint64) int { return int((ts - r.net.Epoch) / vpC11LHour % 24) }
@@ -219,6 +243,24 @@ func (r *vpC11LRun) deliver(ci int, txs []*common.VersionedTransaction, what str
 		hs = append(hs, tx.PayloadHash())
 	}
 	s := r.snapshotOn(ci, hs)
+	if r.skew {
+		lag := r.skewBy
+		for _, tx := range txs {
+			if tx.TransactionType() == common.TransactionTypeNodePledge {
+				// Outside C11 and not generated: a pledge snapshot stamped ahead of
+				// the local clock makes reloadConsensusState panic on this tree (the
+				// new chain's identity is looked up at the local time, where the
+				// pledge does not exist yet). Recorded in DESIGN.md 8.3 as an
+				// observation; the pledge is handed over with the clock caught up.
+				lag = 0
+			}
+		}
+		if lag == 0 {
+			vpC11LSetClock(s.Timestamp + uint64(time.Millisecond))
+		} else {
+			vpC11LSetClock(s.Timestamp - lag)
+		}
+	}
 	fin, err := r.k.Deliver(s, txs)
 	if err != nil {
 		return nil, fmt.Errorf("%s: %v", what, err)
@@ -309,6 +351,9 @@ func (r *vpC11LRun) accept(w vpC11LWhen) error {
 	tx := r.net.NodeAccept(r.pledges[j], r.net.Signers[j], r.lastCons())
 	s := r.k.InitialSnapshot(r.net.NodeIds[j], tx.PayloadHash(), r.clock)
 	r.k.CertifyRot(s, int(r.clock%3), int(r.clock/3%11))
+	if r.skew {
+		vpC11LSetClock(s.Timestamp - r.skewBy)
+	}
 	if _, err := r.k.Deliver(s, []*common.VersionedTransaction{tx}); err != nil {
 		return fmt.Errorf("accept: %v", err)
 	}
@@ -351,6 +396,9 @@ func (r *vpC11LRun) cancel(w vpC11LWhen, want int) error {
 	ver.SignaturesMap = []map[uint16]*crypto.Signature{{0: &sig}}
 	if ver.TransactionType() != common.TransactionTypeNodeCancel {
 		return fmt.Errorf("cancel: harness transaction has type %d", ver.TransactionType())
+	}
+	if r.skew {
+		vpC11LSetClock(r.clock - r.skewBy)
 	}
 	if err := node.persistStore.AddNodeOperation(ver, r.clock, uint64(config.KernelNodePledgePeriodMinimum)*2, true); err != nil {
 		return fmt.Errorf("cancel: operation lock: %v", err)
@@ -669,8 +717,20 @@ func (r *vpC11LRun) infos(node *Node, p *vpC11LProbe) map[string]vpC11LInfo {
 // (t == 0: no new record, e.g. right after start-up).
 func (r *vpC11LRun) evaluate(t uint64, remembered map[uint64]map[string]string, st *vpC11LStats) error {
 	live := r.k.Node
+	if r.skew {
+		// time passes: every record is now in the local clock's past
+		vpC11LSetClock(r.clock + uint64(2*time.Minute))
+	}
 	p := r.probe()
 	liveInfos := r.infos(live, p) // before the harness asks the live node for any chain object
+	repeated := map[crypto.Hash]string{}
+	for _, id := range p.Ids {
+		if q, ok := r.sentinel[id]; ok {
+			if ch := live.getChain(id); ch != nil {
+				repeated[id] = vpC11LKeysString(ch, 1, q)
+			}
+		}
+	}
 	qs := r.queries()
 	now := make(map[uint64]map[string]string, len(qs))
 	for _, q := range qs {
@@ -705,6 +765,32 @@ func (r *vpC11LRun) evaluate(t uint64, remembered map[uint64]map[string]string, 
 	}
 	if err := r.compareInfos(liveInfos, r.infos(fresh, p), p, st); err != nil {
 		return err
+	}
+	for _, id := range p.Ids {
+		lv, ok := repeated[id]
+		if !ok {
+			continue
+		}
+		fch := fresh.getOrCreateChain(id)
+		if fch == nil {
+			continue
+		}
+		st.Compared++
+		r.marks["repeated-question"] = true
+		if fv := vpC11LKeysString(fch, 1, r.sentinel[id]); fv != lv {
+			return fmt.Errorf("the chain object of %s answers ConsensusKeys(1, epoch+%d) - the last question before the operation, repeated right after it - with\n  %s\na node loaded from the same store answers\n  %s", id, r.sentinel[id]-r.net.Epoch, lv, fv)
+		}
+	}
+	// leave a last question on every probed chain object
+	if r.sentinel == nil {
+		r.sentinel = map[crypto.Hash]uint64{}
+	}
+	for _, id := range p.Ids {
+		if ch := live.getChain(id); ch != nil {
+			q := r.clock + 30*24*vpC11LHour + 7
+			_ = vpC11LKeysString(ch, 1, q)
+			r.sentinel[id] = q
+		}
 	}
 	for _, q := range vpC11LSortedTimes(now) {
 		lv := now[q]
@@ -769,6 +855,13 @@ func TestVP_C11_live_reload(t *testing.T) {
 		}
 		r := &vpC11LRun{net: net, dir: dir, self: self, k: k, pledges: map[int]*common.VersionedTransaction{}, owners: map[int]int{}, pledging: -1, accepted: 7, marks: map[string]bool{}}
 		defer func() { r.k.Stop() }()
+		if rapid.IntRange(0, 2).Draw(t, "clock_skew") == 0 {
+			// the local clock is set to the ledger's time and runs a little behind
+			// the snapshots the node is handed, as a verifier's clock may
+			r.skew = true
+			r.skewBy = rapid.SampledFrom([]uint64{1, uint64(time.Second), uint64(5 * time.Second), uint64(20 * time.Second)}).Draw(t, "skew_by")
+			defer clock.Reset()
+		}
 		r.clock = net.Epoch + 36*vpC11LHour + uint64(rapid.IntRange(0, 3599).Draw(t, "base_s"))*uint64(time.Second)
 		remembered := map[uint64]map[string]string{}
 		st := &vpC11LStats{}
